@@ -47,6 +47,8 @@ pub enum OutputKind {
     OddName,
     /// the output path is the input file itself
     SameAsInput,
+    /// /dev/full: can be opened for writing, every write fails (ENOSPC)
+    DevFull,
     /// an existing file that already holds the expected payload up to trailing whitespace
     /// (what redirecting an earlier stdout-mode run, or an editor trimming the end, leaves behind)
     ExistingNearCopy,
@@ -199,6 +201,7 @@ pub fn gen_cli_case(seed: u64, index: u64, strace: bool) -> CliCase {
         11 => OutputKind::Relative,
         12 => OutputKind::OddName,
         13 if r.chance(1, 2) => OutputKind::ExistingNearCopy,
+        13 if r.chance(1, 2) => OutputKind::DevFull,
         _ => OutputKind::SameAsInput,
     };
     let via_stdin = matches!(input_kind, InputKind::Valid | InputKind::Malformed | InputKind::NotUtf8 | InputKind::Empty) && output != OutputKind::SameAsInput && r.chance(1, 8);
@@ -328,6 +331,7 @@ pub fn check_cli(bin: &Path, work: &Path, case: &CliCase, serial: u64, rep: &mut
         OutputKind::Relative => Some(PathBuf::from("rel-out.rs")),
         OutputKind::OddName => Some(dir.join("out put ü — 日本.rs")),
         OutputKind::SameAsInput => Some(in_path.clone()),
+        OutputKind::DevFull => Some(PathBuf::from("/dev/full")),
         OutputKind::ExistingNearCopy => {
             let p = dir.join("out.rs");
             let near = match &expected_early {
